@@ -365,12 +365,14 @@ func resolvePathToFieldDescriptors(
 	}
 	fields := msg.Fields()
 	result := make([]protoreflect.FieldDescriptor, strings.Count(path, ".")+1)
-	for i, remaining := 0, path; remaining != ""; i++ {
+	for i, remaining, last := 0, path, false; !last; i++ {
 		part := remaining
 		if i := strings.IndexByte(remaining, '.'); i >= 0 {
 			part, remaining = remaining[:i], remaining[i+1:]
 		} else {
-			remaining = ""
+			// An empty element (as in "a." or "a..b") is looked up like any
+			// other and fails below: every slot of result must be filled.
+			last = true
 		}
 		var field protoreflect.FieldDescriptor
 		if fromJSON {
@@ -384,7 +386,7 @@ func resolvePathToFieldDescriptors(
 			}
 		}
 		result[i] = field
-		if remaining == "" {
+		if last {
 			break
 		}
 		if field.Cardinality() == protoreflect.Repeated {
